@@ -66,18 +66,20 @@ Definition w_prog : program :=
       [ ([KLt], WTyOut (TVar (1, 1)) (LVar (0, 0))); ([], WLtOut (LVar (1, 0)) LStatic) ];
     IImpl [KTy] false false 0 [GTy (TScalar Sbool); GLt LErased] (TAdt 1 [GLt LStatic; GTy (TVar (0, 0))])
       [ ([KTy], WImpl (TVar (0, 0)) 0 [GTy (TVar (1, 0)); GLt LStatic]) ];
-    IEnum 12%N [KTy] {| sf_upstream := false; sf_fundamental := true; sf_phantom_data := false; sf_one_zst := false |}
-      [ []; [TVar (0, 0); TAdt 3 [GTy TStr]] ] [] ].
+    IEnum 12%N [KInt; KConst] {| sf_upstream := false; sf_fundamental := true; sf_phantom_data := false; sf_one_zst := false |}
+      [ []; [TVar (0, 0); TAdt 3 [GTy TStr; GCVar (0, 1)]; TArray (TAdt 3 [GTy TNever; GCVal 7%N]) (CVar (0, 1))] ]
+      [ ([KFloat; KConst], WTyOut (TArray (TVar (0, 0)) (CVal 3%N)) LStatic) ] ].
 
 Lemma w_prog_wf : wf w_prog.
 Proof.
   split.
   - split; cbn; repeat constructor; cbn; intuition discriminate.
-  - cbn. unfold wf_trait_ref. cbn. unfold var_ok. cbn. repeat split; auto; lia.
+  - cbn. unfold wf_trait_ref, tvar_ok, var_ok. cbn.
+    repeat (first [exact I | cbn; lia | reflexivity | split | eexists]).
 Qed.
 
 Example parse_print_nonvacuous : parse_fuel (need w_prog) (print w_prog) = Some w_prog.
 Proof. apply parse_print_small; [apply w_prog_wf|lia]. Qed.
 
-Example print_w_prog_tokens : length (print w_prog) = 154.
+Example print_w_prog_tokens : length (print w_prog) = 189.
 Proof. vm_compute. reflexivity. Qed.
